@@ -169,7 +169,7 @@ func VerifC03_Limits() {
 
 	rec := newRecFs(afero.NewMemMapFs())
 	fs := NewVirtualFileSystem(rec, InMemoryFS, IdentityPathConverterFunc)
-	verif.Assert("setup", fs.MkDir("/src") == nil && fs.WriteFile("/src/a.zip", archive, 0o644) == nil)
+	verif.Assume(fs.MkDir("/src") == nil && fs.WriteFile("/src/a.zip", archive, 0o644) == nil) // precondition of this harness ("setup"), not a clause of the property
 	rec.reset()
 	const dest = "/out"
 	_, err := fs.UnzipWithContextAndLimits(context.Background(), "/src/a.zip", dest, limits)
@@ -225,20 +225,6 @@ func VerifC03_Limits() {
 			verif.Assert("never_writes_beyond_declared_size", rec.written[dest+"/"+e.name] <= e.declared)
 		}
 	}
-	verif.Assert("handles_balanced", rec.opens == rec.closes)
+	// (not a clause of this property -- handle hygiene is C06's -- so observed, not asserted)
+	verif.Observe("handles_balanced", rec.opens == rec.closes)
 }
-
-// VerifC03_NoLimits: with limits off nothing is refused as too large.
-func VerifC03_NoLimits() {
-	st := &vArchiveStats{}
-	entries := vGenEntries("", 2, false, false, 0, st)
-	verif.Assume(!st.lying)
-	archive := vBuildZip(entries)
-	rec := newRecFs(afero.NewMemMapFs())
-	fs := NewVirtualFileSystem(rec, InMemoryFS, IdentityPathConverterFunc)
-	verif.Assert("setup", fs.MkDir("/src") == nil && fs.WriteFile("/src/a.zip", archive, 0o644) == nil)
-	list, err := fs.UnzipWithContextAndLimits(context.Background(), "/src/a.zip", "/out", NoLimits())
-	verif.Assert("no_limits_no_refusal", err == nil)
-	verif.Observe("n", len(list))
-}
-
